@@ -82,7 +82,8 @@ Qed.
 Theorem uto_bytes_be_spec u : canon u -> uto_bytes_be u = Ret (spec_to_bytes_be (val u)).
 Proof. intros Hu. unfold uto_bytes_be. rewrite uto_bytes_le_spec by auto. reflexivity. Qed.
 
-Theorem uto_u32_digits_spec u : canon u -> uto_u32_digits u = Ret (spec_to_u32_digits (val u)).
+Theorem uto_u32_digits_spec ip u : iter_ok ip = true -> canon u ->
+  uto_u32_digits ip u = Ret (spec_to_u32_digits (val u)).
 Proof. apply it_collect_spec. Qed.
 Theorem uto_u64_digits_spec u : canon u -> uto_u64_digits u = spec_to_u64_digits (val u).
 Proof.
@@ -120,10 +121,10 @@ Proof.
   intros H. destruct (icanon_parts x H) as (Hc & Hs & Hv). unfold ito_bytes_be.
   rewrite uto_bytes_be_spec by auto. cbn [bind]. rewrite Hs, Hv. reflexivity.
 Qed.
-Theorem ito_u32_digits_spec x : icanon x ->
-  ito_u32_digits x = Ret (z_sign (ival x), spec_to_u32_digits (Z.abs (ival x))).
+Theorem ito_u32_digits_spec ip x : iter_ok ip = true -> icanon x ->
+  ito_u32_digits ip x = Ret (z_sign (ival x), spec_to_u32_digits (Z.abs (ival x))).
 Proof.
-  intros H. destruct (icanon_parts x H) as (Hc & Hs & Hv). unfold ito_u32_digits.
+  intros Hok H. destruct (icanon_parts x H) as (Hc & Hs & Hv). unfold ito_u32_digits.
   rewrite uto_u32_digits_spec by auto. cbn [bind]. rewrite Hs, Hv. reflexivity.
 Qed.
 Theorem ito_u64_digits_spec x : icanon x ->
